@@ -564,8 +564,12 @@ Notes:
 
         #FIXME: manually adjusts fcalls due to use of map
         if self._fcalls[0] == fcalls: # cost was not evaluated in this process
-            # use trialEnergy, removing 'skipped' evaluations
-            self._fcalls[0] += len(trialEnergy) - isinf(trialEnergy).sum()
+            # count the trials, removing those 'skipped' by the strict ranges
+            skipped = 0 #NOTE: an evaluated cost can be inf, so don't use isinf
+            if self._useStrictRange:
+                lo,hi = asarray(self._strictMin),asarray(self._strictMax)
+                skipped = sum(bool(((asarray(x)<lo)|(asarray(x)>hi)).any()) for x in self.trialSolution)
+            self._fcalls[0] += len(trialEnergy) - skipped
 
         for candidate in range(self.nPop):
             if trialEnergy[candidate] < self.popEnergy[candidate]:
